@@ -1,4 +1,4 @@
 SPECIFICATION GSpec
 CONSTANTS
-  Families = {"A", "C1"}
+  Families = {"A", "C1", "E", "K"}
 CHECK_DEADLOCK FALSE
